@@ -373,7 +373,7 @@ class NotAClass(Exception):
 
 def class_member(text, c):
     """does the one-character pattern `text` (read by the real parser) match code point c?
-    Shorthand categories do not arise from <= 3 argument characters; if one shows up the harness reports it."""
+    Returns None where the class text contains a shorthand and c is outside the shorthand's specified ASCII core."""
     t = sp.parse(text, FLAGS)
     if len(t) != 1:
         raise NotAClass("not a one-character pattern")
@@ -397,6 +397,29 @@ def class_member(text, c):
         elif o is sp.RANGE:
             if a[0] <= c and c <= a[1]:
                 hit = True
+        elif o is sp.CATEGORY:
+            # shorthands arise from simplification (AnyBetween('0', '9') is emitted as \\d). Their ASCII core is decided; what
+            # only the Unicode-aware shorthand adds (and \\x1c-\\x1f for \\s) is left unspecified by C06: None
+            core = {sp.CATEGORY_DIGIT: lambda k: 48 <= k and k <= 57,
+                    sp.CATEGORY_WORD: lambda k: (48 <= k and k <= 57) or (65 <= k and k <= 90) or (97 <= k and k <= 122) or k == 95,
+                    sp.CATEGORY_SPACE: lambda k: (9 <= k and k <= 13) or k == 32}
+            nots = {sp.CATEGORY_NOT_DIGIT: sp.CATEGORY_DIGIT, sp.CATEGORY_NOT_WORD: sp.CATEGORY_WORD, sp.CATEGORY_NOT_SPACE: sp.CATEGORY_SPACE}
+            if c >= 128 or (28 <= c and c <= 31):
+                return None
+            if a in core:
+                if core[a](c):
+                    hit = True
+            elif a in nots:
+                if not core[nots[a]](c):
+                    hit = True
+            else:
+                raise NotAClass("category %s" % a)
         else:
-            raise NotAClass("category in a class built from a few characters")
+            raise NotAClass(str(o))
     return (not hit) if neg else hit
+
+
+def member_ok(text, c, want):
+    """class_member agrees with the specification, or the code point is one C06 leaves unspecified"""
+    r = class_member(text, c)
+    return r is None or r == want
